@@ -31,10 +31,79 @@ def sum (n : Nat) (f : Fin n → C α) : C α := Fin.foldl n (fun acc i => add a
 def prod (n : Nat) (f : Fin n → C α) : C α := Fin.foldl n (fun acc i => mul acc (f i)) one
 
 variable [Div α]
-/-- `cplx.inverse`: `conj z / real(z · conj z)` -/
+/-- TEXTBOOK inverse `conj z / real(z · conj z)` (`|z|²` formed explicitly). This is `cplx.inverse` as it was BEFORE
+/repo commit 7038bfb (fix F17); the code at HEAD is `invH` below. Kept as the specification `invH` is proved equal to
+(`C15_invH_eq`); no model of HEAD's gradient code calls it any more. -/
 @[inline] def inv (z : C α) : C α := ((conj z).1 / normSq z, (conj z).2 / normSq z)
-/-- `cplx.elementwise_division x y`: `x · conj y / |y|²`, with `|y|² = (sqrt(real(y conj y)))²` in the code -/
+/-- TEXTBOOK quotient `x · conj y / |y|²` (numpy's complex quotient in `cplx.sigmoid`; `cplx.elementwise_division` BEFORE
+7038bfb). HEAD's `elementwise_division` / `scalar_divide` are `divH` / `sdivH` below (`C15_divH_eq`, `C15_sdivH_eq`). -/
 @[inline] def div (x y : C α) : C α := ((mul x (conj y)).1 / normSq y, (mul x (conj y)).2 / normSq y)
+
+end C
+
+/-! ### the scalar kernel of `cplx.py` AT /repo HEAD (after fix F17, commit 7038bfb)
+
+One complex number at a time: these are the functions the tensor-level model `QV.Model.Cplx` applies entrywise
+(`C15_inverse_entry`, `C15_elementwise_division_entry`, `C15_absolute_value_entry`, `C15_sigmoid_entry`) and the
+functions the gradient model `QV.Model.Grads` calls (`cplxRotComp`: `invH`; `piGrad`: `Cplx.sigC`). -/
+namespace Cplx
+variable {α : Type} [Add α] [Mul α] [Neg α] [Sub α] [Div α] [Zero α] [One α] [Transc α] [LT α] [DecidableLT α]
+
+/-- `hypot(a, b)` (C99 / `torch.hypot`): `sqrt(a² + b²)` computed without forming `a²` or `b²` at full scale:
+`m * sqrt((a/m)² + (b/m)²)` with `m = max |a| |b|`; `hypot(0, 0) = 0` -/
+def hypot (a b : α) : α :=
+  let m := Transc.max (Transc.abs a) (Transc.abs b)
+  if 0 < m then m * Transc.sqrt ((a / m) * (a / m) + (b / m) * (b / m)) else m
+
+/-- numpy's `exp(x + iy)` -/
+def expC (z : C α) : C α := (Transc.exp z.1 * Transc.cos z.2, Transc.exp z.1 * Transc.sin z.2)
+
+/-- the logistic function on one complex number as coded after F17_sigmoid (cplx.py:338-342):
+`right = Re z > 0`, `ez = exp(-z)` if `right` else `exp(z)`, result `(1 if right else ez) / (1 + ez)`
+(complex quotient `C.div`) -/
+def sigC (z : C α) : C α :=
+  if 0 < z.1 then
+    let e := expC (C.neg z)
+    C.div C.one (1 + e.1, e.2)
+  else
+    let e := expC z
+    C.div e (1 + e.1, e.2)
+end Cplx
+
+namespace C
+variable {α : Type} [Add α] [Mul α] [Neg α] [Sub α] [Div α] [Zero α] [One α] [Transc α]
+
+/-- `torch.max(real(z).abs(), imag(z).abs())` of one entry (cplx.py:283, 375): the larger component -/
+def scaleH (z : C α) : α := Transc.max (Transc.abs z.1) (Transc.abs z.2)
+
+/-- `cplx.inverse(z)` at HEAD for one entry (cplx.py:364-380): with `scale` the larger component and `w = z/scale`,
+`conj(w) / real(scalar_mult(w, conj(w))) / scale` -/
+def invH (z : C α) : C α :=
+  let s := scaleH z
+  let w : C α := (z.1 / s, z.2 / s)
+  let ws := conj w
+  let den := (mul w ws).1
+  (ws.1 / den / s, ws.2 / den / s)
+
+/-- `cplx.scalar_divide(x, y) = scalar_mult(x, inverse(y))` for one entry (cplx.py:348-361) -/
+def sdivH (x y : C α) : C α := mul x (invH y)
+
+variable [LT α] [DecidableLT α]
+
+/-- `cplx.absolute_value(z) = torch.hypot(real(z), imag(z))` for one entry (cplx.py:292-301) -/
+def absH (z : C α) : α := Cplx.hypot z.1 z.2
+
+/-- `cplx.elementwise_division(x, y)` at HEAD for one entry (cplx.py:268-289): with `scale` the larger component of `y`,
+`(x/scale) · conj(y/scale)` divided by `absolute_value(y/scale).pow_(2)` -/
+def divH (x y : C α) : C α :=
+  let s := scaleH y
+  let y' : C α := (y.1 / s, y.2 / s)
+  let ab := absH y'
+  let p := mul (x.1 / s, x.2 / s) (conj y')
+  (p.1 / (ab * ab), p.2 / (ab * ab))
+
+/-- `cplx.sigmoid(x, y)` at HEAD for one entry (cplx.py:326-345) -/
+def csigmoidH (x y : α) : C α := Cplx.sigC (x, y)
 
 end C
 end QV
